@@ -1267,6 +1267,11 @@ class CompositeEnvelope:
         if len(states) != len(list(set(states))):
             raise ValueError("State list should contain unique elements")
 
+        # Check that the states are a part of this composite envelope
+        for s in states:
+            if not any(s is included for included in self.state_objs):
+                raise ValueError("Given states have to be a part of composite envelope")
+
         # Check if dimensions match
         dim = jnp.prod(jnp.array([s.dimensions for s in states]))
         for op in operators:
@@ -1416,6 +1421,11 @@ class CompositeEnvelope:
         states: BaseState
             States onto which the operator should be applied
         """
+
+        # Check that the states are a part of this composite envelope
+        for s in states:
+            if not any(s is included for included in self.state_objs):
+                raise ValueError("Given states have to be a part of composite envelope")
 
         if len(states) == 1:
             if not isinstance(states[0].index, tuple):
